@@ -36,8 +36,8 @@ type Fault struct {
 }
 
 type Op struct {
-	Op      string  `json:"op"` // "req" | "reopen"
-	AtNs    int64   `json:"at_ns"`          // virtual instant (ns after the bubble's start) at which the op is issued
+	Op      string  `json:"op"`    // "req" | "reopen"
+	AtNs    int64   `json:"at_ns"` // virtual instant (ns after the bubble's start) at which the op is issued
 	Method  string  `json:"method,omitempty"`
 	URL     string  `json:"url,omitempty"`
 	Hdr     Hdr     `json:"hdr,omitempty"`
